@@ -151,6 +151,43 @@ def gen_cases(rng, tier):
         out.append(Case("doc", [b"a = " + lit + b"\n"], {"kind": "limit-literal", "expect": exp}))
     for n, exp in [(78, "ok"), (79, "ok"), (80, "err"), (200, "err")]:
         out.append(Case("doc", [b"a = " + b"[" * n + b"]" * n + b"\n"], {"kind": "limit-nesting", "expect": exp}))
+    out.extend(datetime_grid())
+    return out
+
+
+def _days_in_month(y, m):
+    if m == 2:
+        return 29 if (y % 4 == 0 and (y % 100 != 0 or y % 400 == 0)) else 28
+    return 30 if m in (4, 6, 9, 11) else 31
+
+
+def datetime_grid():
+    """every month x day edge, every time-field edge and every offset edge, judged by RFC 3339's table written out
+    here (independent of both parsers): complete for any single change of a range bound or of the month table"""
+    out = []
+
+    def add(lit, ok, kind):
+        out.append(Case("doc", [b"a = " + lit.encode() + b"\n"], {"kind": "datetime-grid:" + kind, "expect": "ok" if ok else "err"}))
+    for y in (1900, 1979, 2000, 2023, 2024):
+        for m in range(0, 14):
+            for d in (0, 1, 27, 28, 29, 30, 31, 32):
+                ok = 1 <= m <= 12 and 1 <= d <= _days_in_month(y, m)
+                add("%04d-%02d-%02d" % (y, m, d), ok, "date")
+                if y == 2024 or d >= 28:
+                    add("%04d-%02d-%02dT07:32:00Z" % (y, m, d), ok, "date-in-datetime")
+    for h in (0, 1, 12, 22, 23, 24, 25, 59, 60, 99):
+        add("%02d:00:00" % h, h <= 23, "hour")
+        add("1979-05-27T%02d:00:00" % h, h <= 23, "hour")
+    for mi in (0, 1, 58, 59, 60, 61, 99):
+        add("07:%02d:00" % mi, mi <= 59, "minute")
+        add("1979-05-27 07:%02d:00-07:00" % mi, mi <= 59, "minute")
+    for sec in (0, 1, 58, 59, 60, 61, 62, 99):
+        add("07:32:%02d" % sec, sec <= 60, "second")
+        add("1979-05-27T07:32:%02d.5Z" % sec, sec <= 60, "second")
+    for sign in "+-":
+        for oh in (0, 1, 12, 22, 23, 24, 25, 99):
+            for om in (0, 1, 30, 58, 59, 60, 61, 99):
+                add("1979-05-27T07:32:00%s%02d:%02d" % (sign, oh, om), oh <= 23 and om <= 59, "offset")
     return out
 
 
